@@ -13,6 +13,7 @@ import coco
 from coco.b09 import compiler, grammar as G, visitors as V
 from coco.b09.compiler import convert
 from coco.b09.grammar import grammar
+from tx.tier import THOROUGH, pick
 from tx.p_c05 import ob, guarded
 from tx.p_c08 import FORMS
 
@@ -153,6 +154,13 @@ def mutations():
                 variants.add(" ".join(toks[:i] + [toks[i], toks[i]] + toks[i + 1:]))
                 if i + 1 < len(toks):
                     variants.add(" ".join(toks[:i] + [toks[i + 1], toks[i]] + toks[i + 2:]))
+                if THOROUGH:
+                    # thorough: every token also replaced by every other token of the form, and all pairs of deletions
+                    for j in range(len(toks)):
+                        if j != i:
+                            variants.add(" ".join(toks[:i] + [toks[j]] + toks[i + 1:]))
+                            if j > i:
+                                variants.add(" ".join(t for k, t in enumerate(toks) if k not in (i, j)))
             bad, known = [], set()
             for v in sorted(variants):
                 try:
@@ -164,7 +172,7 @@ def mutations():
                     elif kind == "internal":
                         bad.append("%r -> %s" % (v, what))
             return [ob(oid, not bad, "only documented refusals", bad[:4] or "%d variants" % len(variants), known_hits=sorted(known),
-                       bounded="all single-token deletions, duplications and adjacent swaps of one statement form")]
+                       bounded="all single-token deletions, duplications and adjacent swaps of one statement form" + pick("", "; all token-for-token replacements and double deletions"))]
         out += guarded(oid, run)
     return out
 
@@ -173,7 +181,7 @@ def literals():
     """strings the literal terminals accept are accepted by the conversions applied to them"""
     def run():
         res = []
-        for rule, alphabet, maxlen in (("num_literal", "+-. E1", 4), ("hex_literal", "&H F1", 5), ("int_literal", "10", 3), ("linenum", "10", 3)):
+        for rule, alphabet, maxlen in (("num_literal", "+-. E1", pick(4, 6)), ("hex_literal", "&H F1", pick(5, 7)), ("int_literal", "10", pick(3, 6)), ("linenum", "10", pick(3, 6))):
             rx = grammar[rule].re
             bad, known, n = [], set(), 0
             for k in range(1, maxlen + 1):
@@ -239,5 +247,59 @@ def data_and_procnames():
     return guarded("programs", run)
 
 
+def loop_balance():
+    """FOR/NEXT in any balance: NEXT lists longer than the open loops, NEXT without FOR, FOR without NEXT, in IF arms -
+    converted or refused, never an internal error (bounded: all programs of up to 4 such lines)"""
+    def run():
+        import itertools
+        lines = ["FOR I=1 TO 2", "FOR J=1 TO 2", "NEXT", "NEXT I", "NEXT I,J", "NEXT K,J,I", "IF A=1 THEN NEXT I,J", "IF A=1 THEN FOR K=1 TO 2"]
+        bad, known, n = [], set(), 0
+        for length in range(1, 5):
+            for prog in itertools.product(lines, repeat=length):
+                src = "".join("%d %s\n" % (10 * (k + 1), l) for k, l in enumerate(prog))
+                n += 1
+                try:
+                    convert(src, add_standard_prefix=False)
+                except Exception as e:  # noqa
+                    kind, what = classify(e, src=src)
+                    if kind == "known":
+                        known.add(what)
+                    elif kind == "internal":
+                        bad.append("%r -> %s" % (src, what))
+        return [ob("programs/every balance of FOR and NEXT", not bad, "converted or documented refusal", bad[:4] or "%d programs" % n, known_hits=sorted(known),
+                   bounded="all programs of 1..4 lines over %d FOR/NEXT line forms" % len(lines))]
+    return guarded("programs/loop-balance", run)
+
+
+def no_hang():
+    """'it never hangs': conversions of programs whose comments / literals are adversarial for the bank's quote-parity
+    look-aheads finish within a generous limit (run in a child process that is killed at the limit)"""
+    def run():
+        import subprocess
+        import sys
+        import coco
+        import os
+        repo = os.path.dirname(os.path.dirname(os.path.abspath(coco.__file__)))
+        progs = {
+            "comment with RUN and a lone quote far behind it": '10 PRINT "HI"\n20 REM RUN MENU FROM THE DISK AFTER TYPING LOAD "MENU AND PRESSING ENTER TWICE\n',
+            "many quotes after a RUN word": '10 REM RUN X ' + 'A"' * 31 + '\n',
+            "literal with tag-like text and an odd quote behind": '10 A$=": STRING<<>> : STRING<<>> ' + "X" * 40 + '"+"' + "Y" * 40 + '\n20 REM "\n',
+            "long line of blanks and colons": "10 A=1" + " : " * 300 + "\n",
+            "procedure-like comment": "10 REM PROCEDURE " + "A " * 60 + '"\n',
+        }
+        res = []
+        for name, src in progs.items():
+            code = ("import sys\nfrom coco.b09.compiler import convert\n"
+                    "try:\n    convert(%r, output_dependencies=True, procname='p')\nexcept Exception as e:\n    print(type(e).__name__)\n" % src)
+            try:
+                p = subprocess.run([sys.executable, "-c", code], env=dict(os.environ, PYTHONPATH=repo), capture_output=True, text=True, timeout=60)
+                got = "finished"
+            except subprocess.TimeoutExpired:
+                got = "still running after 60 s"
+            res.append(ob("no-hang/%s" % name, got == "finished", "finished", got, bounded="one adversarial program, 60 s limit"))
+        return res
+    return guarded("no-hang", run)
+
+
 def obligations():
-    return arity() + tables() + operators() + literals() + data_and_procnames() + mutations()
+    return arity() + tables() + operators() + literals() + data_and_procnames() + loop_balance() + no_hang() + mutations()
